@@ -9,7 +9,29 @@ pub type PartyId = String;
 #[derive(Clone, Copy)] pub struct Epoch(pub u64);
 #[verifier::external_body] pub struct ProtocolInitializer { _p: core::marker::PhantomData<u8> }
 #[verifier::external_body] pub struct KeyBytes { _p: core::marker::PhantomData<u8> }
-pub struct Signer { pub party_id: PartyId, pub verification_key_for_concatenation: KeyBytes }
+#[verifier::external_body] pub struct KeySignature { _p: core::marker::PhantomData<u8> }   // Option<ProtocolSignerVerificationKeySignature>
+#[verifier::external_body] pub struct OpCertOpt { _p: core::marker::PhantomData<u8> }      // Option<ProtocolOpCert>
+#[verifier::external_body] pub struct KesEvolutionsOpt { _p: core::marker::PhantomData<u8> } // Option<KesEvolutions>
+impl KeyBytes { #[verifier::external_body] pub fn to_owned(&self) -> (r: Self) ensures r == *self { unimplemented!() } }
+impl KeySignature { #[verifier::external_body] pub fn to_owned(&self) -> (r: Self) ensures r == *self { unimplemented!() } }
+impl OpCertOpt { #[verifier::external_body] pub fn to_owned(&self) -> (r: Self) ensures r == *self { unimplemented!() } }
+impl KesEvolutionsOpt { #[verifier::external_body] pub fn to_owned(&self) -> (r: Self) ensures r == *self { unimplemented!() } }
+pub type Stake = u64;
+pub struct Signer {
+    pub party_id: PartyId,
+    pub verification_key_for_concatenation: KeyBytes,
+    pub verification_key_signature_for_concatenation: KeySignature,
+    pub operational_certificate: OpCertOpt,
+    pub kes_evolutions: KesEvolutionsOpt,
+}
+pub struct SignerWithStake {
+    pub party_id: PartyId,
+    pub verification_key_for_concatenation: KeyBytes,
+    pub verification_key_signature_for_concatenation: KeySignature,
+    pub operational_certificate: OpCertOpt,
+    pub kes_evolutions: KesEvolutionsOpt,
+    pub stake: Stake,
+}
 pub enum EpochServiceError { NotYetInitialized }
 
 pub uninterp spec fn initializer_key(i: &ProtocolInitializer) -> KeyBytes;
@@ -20,7 +42,6 @@ pub uninterp spec fn key_eq(a: &KeyBytes, b: &KeyBytes) -> bool;
 #[verifier::external_body] pub struct DiscriminantSet { _p: core::marker::PhantomData<u8> }   // BTreeSet<SignedEntityTypeDiscriminants>
 #[verifier::external_body] pub struct TxConfig { _p: core::marker::PhantomData<u8> }          // Option<CardanoTransactionsSigningConfig>
 #[verifier::external_body] pub struct BlkConfig { _p: core::marker::PhantomData<u8> }         // Option<CardanoBlocksTransactionsSigningConfig>
-#[verifier::external_body] pub struct SignerWithStake { _p: core::marker::PhantomData<u8> }
 impl Clone for ProtocolParameters { #[verifier::external_body] fn clone(&self) -> (r: Self) ensures r == *self { unimplemented!() } }
 impl Clone for DiscriminantSet { #[verifier::external_body] fn clone(&self) -> (r: Self) ensures r == *self { unimplemented!() } }
 impl Clone for TxConfig { #[verifier::external_body] fn clone(&self) -> (r: Self) ensures r == *self { unimplemented!() } }
@@ -32,6 +53,7 @@ pub struct MithrilNetworkConfigurationForEpoch {
     pub signed_entity_types_config: SignedEntityTypesConfig,
 }
 pub struct MithrilNetworkConfiguration {
+    pub epoch: Epoch,
     pub configuration_for_aggregation: MithrilNetworkConfigurationForEpoch,
     pub configuration_for_registration: MithrilNetworkConfigurationForEpoch,
 }
@@ -69,11 +91,40 @@ impl Epoch {
     #[verifier::external_body]
     pub fn offset_to_next_signer_retrieval_epoch(&self) -> (r: Epoch) ensures r.0 == self.0 { unimplemented!() }
 }
-/// the signers with the stakes the signer's stake store holds for this epoch (associate_signers_with_stake: a loop over a
-/// HashMap lookup; contract only)
-pub uninterp spec fn with_stakes_of(e: Epoch, signers: Seq<Signer>) -> Seq<SignerWithStake>;
+// the signer's stake store (async trait object over SQLite): the stake distribution saved under an epoch
+#[verifier::external_body] pub struct StakeStorer { _p: core::marker::PhantomData<u8> }
+#[verifier::external_body] pub struct StakeDistribution { _p: core::marker::PhantomData<u8> }
+pub uninterp spec fn saved_stakes(s: &StakeStorer, e: Epoch) -> Option<Map<Seq<char>, Stake>>;
+pub uninterp spec fn stake_map(d: &StakeDistribution) -> Map<Seq<char>, Stake>;
+impl StakeStorer {
+    #[verifier::external_body]
+    pub fn get_stakes(&self, e: Epoch) -> (r: Result<Option<StakeDistribution>, EpochServiceError>)
+        ensures r is Ok ==> (r->Ok_0 is Some) == (saved_stakes(self, e) is Some), r is Ok && r->Ok_0 is Some ==> stake_map(&r->Ok_0->Some_0) == saved_stakes(self, e)->Some_0
+    { unimplemented!() }
+}
+impl StakeDistribution {
+    #[verifier::external_body]
+    pub fn get(&self, id: &PartyId) -> (r: Option<&Stake>)
+        ensures (r is Some) == stake_map(self).dom().contains(id@), r is Some ==> *r->Some_0 == stake_map(self)[id@]
+    { unimplemented!() }
+}
+#[verifier::external_body]
+fn string_to_owned(s: &String) -> (r: String) ensures r@ == s@ { s.clone() }
+/// `out` is `signers`, one for one and in order, each with ITS OWN key material and the stake the store saved under `e` for ITS party id
+pub open spec fn with_stakes_of(store: &StakeStorer, e: Epoch, signers: Seq<Signer>, out: Seq<SignerWithStake>) -> bool {
+    &&& saved_stakes(store, e) is Some
+    &&& out.len() == signers.len()
+    &&& forall|i: int| 0 <= i < signers.len() ==> signer_with_stake_of(saved_stakes(store, e)->Some_0, signers[i], #[trigger] out[i])
+}
+pub open spec fn signer_with_stake_of(stakes: Map<Seq<char>, Stake>, s: Signer, o: SignerWithStake) -> bool {
+    &&& o.party_id@ == s.party_id@ && o.verification_key_for_concatenation == s.verification_key_for_concatenation
+    &&& o.verification_key_signature_for_concatenation == s.verification_key_signature_for_concatenation
+    &&& o.operational_certificate == s.operational_certificate && o.kes_evolutions == s.kes_evolutions
+    &&& stakes.dom().contains(s.party_id@) && o.stake == stakes[s.party_id@]
+}
 
 pub struct MithrilEpochService {
+    pub stake_storer: StakeStorer,
     pub epoch_data: Option<EpochData>,
     pub protocol_initializer_store: ProtocolInitializerStore,
     pub era_checker: EraChecker,
@@ -90,10 +141,24 @@ fn any_signer_with(signers: &Vec<Signer>, party_id: &PartyId, i: &ProtocolInitia
 { unimplemented!() }
 
 impl MithrilEpochService {
-    #[verifier::external_body]
-    fn associate_signers_with_stake(&self, epoch: Epoch, signers: &Vec<Signer>) -> (r: Result<Vec<SignerWithStake>, EpochServiceError>)
-        ensures r is Ok ==> r->Ok_0@ == with_stakes_of(epoch, signers@)
-    { unimplemented!() }
+    //@extract file=mithril-signer/src/services/epoch_service.rs fn=associate_signers_with_stake within="impl MithrilEpochService"
+    //@ strip_cfg future_snark
+    //@ rewrite /async fn/ => /fn/
+    //@ rewrite /\.await/ => //
+    //@ rewrite /signers: &\[Signer\]/ => /signers: &Vec<Signer>/
+    //@ rewrite /StdResult<Vec<SignerWithStake>>/ => /Result<Vec<SignerWithStake>, EpochServiceError>/
+    //@ rewrite? /(?s)(?:debug|trace|warn|info)!\(.*?\);[ \t]*\n/ => //
+    //@ rewrite /(?s)\.ok_or_else\(\|\| RunnerError::NoValueError\(format!\(.*?\)\)\)\?/ => /.ok_or(EpochServiceError::NotYetInitialized)?/
+    //@ rewrite? /(?s)\.ok_or_else\(\|\| RunnerError::NoStakeForSigner\(signer\.party_id\.to_string\(\)\)\)\?/ => /.ok_or(EpochServiceError::NotYetInitialized)?/
+    //@ rewrite /let mut signers_with_stake = vec!\[\];/ => /let mut signers_with_stake: Vec<SignerWithStake> = Vec::new();/
+    //@ rewrite /for signer in signers \{/ => /for signer in it: signers.iter() {/
+    //@ rewrite /\.get\(&\*signer\.party_id\)/ => /.get(&signer.party_id)/
+    //@ rewrite /signer\.party_id\.to_owned\(\)/ => /string_to_owned(&signer.party_id)/
+    //@ spec ensures ret is Ok ==> with_stakes_of(&self.stake_storer, epoch, signers@, ret->Ok_0@)
+    //@ loop 0 invariant 0 <= it.index@ <= signers@.len(), signers_with_stake@.len() == it.index@, saved_stakes(&self.stake_storer, epoch) is Some,
+    //@ loop 0     stake_map(&stakes) == saved_stakes(&self.stake_storer, epoch)->Some_0,
+    //@ loop 0     forall|i: int| 0 <= i < it.index@ ==> signer_with_stake_of(saved_stakes(&self.stake_storer, epoch)->Some_0, signers@[i], #[trigger] signers_with_stake@[i]),
+    //@end
 
     //@extract file=mithril-signer/src/services/epoch_service.rs fn=inform_epoch_settings within="impl EpochService for MithrilEpochService"
     //@ rewrite /async fn/ => /fn/
@@ -115,7 +180,7 @@ impl MithrilEpochService {
     //@ rewrite /\.await/ => //
     //@ rewrite /StdResult<Vec<SignerWithStake>>/ => /Result<Vec<SignerWithStake>, EpochServiceError>/
     //@ spec ensures ret is Ok ==> self.epoch_data is Some && self.epoch_data->Some_0.epoch.0 >= 1
-    //@ spec     && ret->Ok_0@ == with_stakes_of(Epoch((self.epoch_data->Some_0.epoch.0 - 1) as u64), self.epoch_data->Some_0.current_signers@)
+    //@ spec     && with_stakes_of(&self.stake_storer, Epoch((self.epoch_data->Some_0.epoch.0 - 1) as u64), self.epoch_data->Some_0.current_signers@, ret->Ok_0@)
     //@end
 
     //@extract file=mithril-signer/src/services/epoch_service.rs fn=next_signers_with_stake within="impl EpochService for MithrilEpochService"
@@ -123,7 +188,7 @@ impl MithrilEpochService {
     //@ rewrite /\.await/ => //
     //@ rewrite /StdResult<Vec<SignerWithStake>>/ => /Result<Vec<SignerWithStake>, EpochServiceError>/
     //@ spec ensures ret is Ok ==> self.epoch_data is Some
-    //@ spec     && ret->Ok_0@ == with_stakes_of(self.epoch_data->Some_0.epoch, self.epoch_data->Some_0.next_signers@)
+    //@ spec     && with_stakes_of(&self.stake_storer, self.epoch_data->Some_0.epoch, self.epoch_data->Some_0.next_signers@, ret->Ok_0@)
     //@end
 
     //@extract file=mithril-signer/src/services/epoch_service.rs fn=next_signers within="impl EpochService for MithrilEpochService"
